@@ -93,6 +93,16 @@ Inductive c04_defect :=
                                variant field's own JSON name is deleted with it *)
   | D4FlatVariantBoolMap     (* oneof_discriminator.go:228-251: json.Marshal of a variant with a populated map<bool, T> fails
                                ("unsupported type: map[bool]"), the error is swallowed and the variant is dropped *)
+  | D4OneofVariantBoolMap    (* oneof_discriminator.go:370-391: json.Unmarshal of the protojson form of a variant with a populated
+                               map<bool, T>: encoding/json refuses map[bool]T as a target ("cannot unmarshal object into Go value of
+                               type map[bool]..."), so the codec rejects its own output *)
+  | D4OneofVariantFoldClash  (* oneof_discriminator.go:370-391 + encoding/json's field matching: protojson writes a multi-word field of
+                               the variant under its lowerCamel name, which json.Unmarshal matches case-insensitively onto ANOTHER
+                               field of the Go struct (alt_text -> "altText" -> field alttext) whose Go type does not read that value:
+                               the codec rejects its own output *)
+  | D4ReflectedEmptyOptBytes (* encoding/json on a protoc-gen-go struct: `json:"...,omitempty"` drops an `optional bytes` field that
+                               is present but empty, so its presence is lost wherever a child is rendered by reflection
+                               (flattened oneof variant, map value beside an unwrap map, ...) *)
   | D4EmptyNullEpochTs.     (* empty_behavior.go: NULL on a Timestamp field: the epoch has proto.Size 0, is written as null,
                                read back as {} and protojson rejects {} for a Timestamp *)
 
@@ -109,6 +119,9 @@ Definition c04_defect_str (d : c04_defect) : str :=
   | D4OneofMemberIsDiscriminator => s "oneof-member-named-like-discriminator"
   | D4FlatVariantFieldIsVariant => s "flat-oneof-child-field-named-like-variant"
   | D4FlatVariantBoolMap => s "flat-oneof-variant-bool-keyed-map-dropped"
+  | D4OneofVariantBoolMap => s "oneof-variant-bool-keyed-map-rejected"
+  | D4OneofVariantFoldClash => s "oneof-variant-key-folds-onto-other-field"
+  | D4ReflectedEmptyOptBytes => s "reflected-child-empty-optional-bytes-dropped"
   | D4EmptyNullEpochTs => s "empty-null-epoch-timestamp"
   end.
 
@@ -163,17 +176,64 @@ Definition reflect_child_breaks (cmd : message) (cm : mval) : bool :=
     | None => true
     end) cm.
 
+Fixpoint nonfinite_in (k : kind) (v : fval) : bool :=
+  match v with
+  | FS _ => float_special k v
+  | FL l => (fix go (l : list fval) : bool := match l with [] => false | x :: r => nonfinite_in k x || go r end) l
+  | FMap kv => (fix go (kv : list (sval * fval)) : bool := match kv with [] => false | (_, x) :: r => nonfinite_in k x || go r end) kv
+  | FM _ => false
+  end.
+
 (* child in protojson form handed to encoding/json (non-flattened variant): single-word fields whose
-   protojson value is a string where Go expects a number / object *)
+   protojson value is a string where Go expects a number / object (NaN / Infinity also as an element of a
+   repeated field or a value of a map: "NaN" is no number for json.Unmarshal) *)
 Definition pj_form_breaks_reflect (cmd : message) (cm : mval) : bool :=
   existsb (fun e =>
     match find_field (m_fields cmd) (fst e) with
     | Some f =>
         negb (multiword (fst e)) &&
-        (is_int64_kind (f_kind f) || is_timestamp (f_kind f) || float_special (f_kind f) (snd e)
+        (is_int64_kind (f_kind f) || is_timestamp (f_kind f) || nonfinite_in (f_kind f) (snd e)
          || match f_kind f with KEnum _ => true | _ => false end
          || (is_msg_kind (f_kind f) && negb (is_timestamp (f_kind f))))
     | None => true
+    end) cm.
+
+(* the same hand-over for a populated map<bool, T> under a single-word name: protojson writes {"true": ...}, the Go
+   target map[bool]T is refused by json.Unmarshal whatever the object holds *)
+Definition pj_form_bool_map (cmd : message) (cm : mval) : bool :=
+  existsb (fun e =>
+    match find_field (m_fields cmd) (fst e) with
+    | Some f => negb (multiword (fst e)) &&
+                match f_card f, snd e with MapOf KBool, FMap (_ :: _) => true | _, _ => false end
+    | None => false
+    end) cm.
+
+(* the same hand-over for a multi-word field: its lowerCamel key matches no struct tag exactly, but encoding/json then
+   tries the case-folded names; when that finds another field g, the value lands there.  It is read when g has the
+   JSON shape of f (same kind; both singular/optional, both repeated, or maps with the same key kind) and the protojson
+   form of that kind is one encoding/json reads (as for single-word fields above) *)
+Definition card_shape_eqb (a b : card) : bool :=
+  match a, b with
+  | Singular, Singular | Singular, Optional | Optional, Singular | Optional, Optional => true
+  | Repeated, Repeated => true
+  | MapOf ka, MapOf kb => kind_eqb ka kb
+  | _, _ => false
+  end.
+Definition pj_form_read_by (f g : field) (x : fval) : bool :=
+  card_shape_eqb (f_card f) (f_card g) && kind_eqb (f_kind f) (f_kind g) &&
+  negb (is_int64_kind (f_kind f) || is_timestamp (f_kind f) || nonfinite_in (f_kind f) x
+        || match f_kind f with KEnum _ => true | _ => false end
+        || is_msg_kind (f_kind f)) &&
+  negb (match f_card f with MapOf KBool => true | _ => false end).
+Definition pj_form_fold_clash (cmd : message) (cm : mval) : bool :=
+  existsb (fun e =>
+    match find_field (m_fields cmd) (fst e) with
+    | Some f => multiword (fst e) &&
+                match field_by_fold cmd (json_name (fst e)) with
+                | Some g => negb (pj_form_read_by f g (snd e))
+                | None => false
+                end
+    | None => false
     end) cm.
 
 (* a codec-owning variant re-marshalled by its own MarshalJSON and then read by protojson *)
@@ -187,14 +247,6 @@ Definition codec_form_breaks_pj (cft : feature) (cmd : message) (cm : mval) : bo
                                  | _, _ => false end) cm
   | FtInt64 | FtNullable | FtEmpty => false
   | _ => match cm with [] => false | _ => true end
-  end.
-
-Fixpoint nonfinite_in (k : kind) (v : fval) : bool :=
-  match v with
-  | FS _ => float_special k v
-  | FL l => (fix go (l : list fval) : bool := match l with [] => false | x :: r => nonfinite_in k x || go r end) l
-  | FMap kv => (fix go (kv : list (sval * fval)) : bool := match kv with [] => false | (_, x) :: r => nonfinite_in k x || go r end) kv
-  | FM _ => false
   end.
 
 Definition unwrap_sibling_defects (md : message) (m : mval) : list c04_defect :=
@@ -230,7 +282,9 @@ Definition local_defects (md : message) (m : mval) : list c04_defect :=
                       match owner_of sc cmd with
                       | OwnNone =>
                           if o_flatten o then (if reflect_child_breaks cmd cm then [D4FlatOneofChild] else [])
-                          else (if pj_form_breaks_reflect cmd cm then [D4OneofVariantReflect] else [])
+                          else (if pj_form_breaks_reflect cmd cm then [D4OneofVariantReflect] else []) ++
+                               (if pj_form_bool_map cmd cm then [D4OneofVariantBoolMap] else []) ++
+                               (if pj_form_fold_clash cmd cm then [D4OneofVariantFoldClash] else [])
                       | Own cft =>
                           if o_flatten o then (if codec_form_breaks_pj cft cmd cm then [D4FlatOneofRemarshal] else [])
                           else (* the variant's UnmarshalJSON is given the protojson form *)
@@ -305,9 +359,12 @@ Fixpoint gj_defects (k : kind) (v : fval) {struct v} : list c04_defect :=
                 end in
               (match owner_of sc md with
                | Own _ => local_defects md m
-               | OwnNone => if existsb (fun e => match find_field (m_fields md) (fst e) with
-                                                 | Some f => negb (is_msg_kind (f_kind f)) && nonfinite_in (f_kind f) (snd e)
-                                                 | None => false end) m then [D4UnwrapSiblingNonFinite] else []
+               | OwnNone => (if existsb (fun e => match find_field (m_fields md) (fst e) with
+                                                  | Some f => negb (is_msg_kind (f_kind f)) && nonfinite_in (f_kind f) (snd e)
+                                                  | None => false end) m then [D4UnwrapSiblingNonFinite] else []) ++
+                            (if existsb (fun e => match find_field (m_fields md) (fst e), snd e with
+                                                  | Some f, FS (VBytes []) => match f_card f with Optional => true | _ => false end
+                                                  | _, _ => false end) m then [D4ReflectedEmptyOptBytes] else [])
                | OwnMany => []
                end) ++
               (if existsb (fun e => match find_field (m_fields md) (fst e) with
@@ -466,7 +523,7 @@ Definition reflect_differs (cmd : message) (cm : mval) : bool :=
   existsb (fun e =>
     match find_field (m_fields cmd) (fst e) with
     | Some f => multiword (fst e) || is_int64_kind (f_kind f) || is_timestamp (f_kind f)
-                || float_special (f_kind f) (snd e)
+                || nonfinite_in (f_kind f) (snd e)   (* json.Marshal fails: also inside a repeated field or a map *)
                 || match f_kind f with
                    | KEnum _ => negb (enum_with_codec sc (f_kind f)) && enum_defined_hit (f_kind f) (snd e)
                                 || (enum_with_codec sc (f_kind f) && negb (enum_defined_hit (f_kind f) (snd e)))
